@@ -371,6 +371,13 @@ def run(ctx):
         for i in field_writes(f, "postActionDelay_"):
             n_w += 1
             ctx.use(f)
+            rhs = write_rhs(f, i)
+            rt = f.text(rhs) if rhs is not None and rhs >= 0 else ""
+            if not (rt in ("std::nullopt", "{}", "") or const_int(f, rhs) is not None or "postActionDelay_" in rt):
+                # a value of unknown origin (the parsed text kept in a local first, say): not decided here
+                ctx.broken("plugin-delay-is-the-configured-one:%s@%d" % (short(f), f.nodes[i].get("line", 0)), "who-writes", f.loc(i),
+                           "%s assigns postActionDelay_ from %s: whether that is the configured value is not something this rule follows" % (f.pq, rt[:80]))
+                continue
             ctx.check(False, "plugin-delay-is-the-configured-one:%s@%d" % (short(f), f.nodes[i].get("line", 0)), "who-writes", f.loc(i),
                       "postActionDelay_ is written by the argument parser only",
                       "%s assigns postActionDelay_ (%s): the delay applied after this action stops is then not the post_action_delay its "
